@@ -92,7 +92,7 @@ def run_one(m, prop, slot, repo="/repo"):
         shutil.rmtree(d, ignore_errors=True)
 
 
-def run_all(prop=None, ids=None, jobs=8, repo="/repo"):
+def run_all(prop=None, ids=None, jobs=max(4, min(14, (os.cpu_count() or 8) - 2)), repo="/repo"):
     ms = load(prop)
     tasks = []
     for m in ms:
